@@ -265,7 +265,7 @@ pub open spec fn edited(fin: ParsedPacket, mid: ParsedPacket, si: int, k: int, r
     let u = mid.bytes(); let v = fin.bytes();
     let st = sec_st(u, si); let n = sec_n(u, si); let a = pf_rrs_end(u, st, k); let b = pf_rrs_end(u, st, k + rm); let d = wl - (b - a);
     let c = n - rm + m;
-    fin.packet.is_some() && v.len() <= 0xffff
+    fin.packet.is_some()
     && fin.offset_question == mid.offset_question
     && fin.offset_answers == (if si == 1 { some_if(c > 0, st) } else { mid.offset_answers })
     && fin.offset_nameservers == (if si == 2 { some_if(c > 0, st) } else if si < 2 { shift_u(mid.offset_nameservers, d) } else { mid.offset_nameservers })
@@ -287,6 +287,7 @@ pub proof fn lemma_edit_wf(fin: ParsedPacket, mid: ParsedPacket, si: int, k: int
     lemma_pf_wf_bytes(u);
     lemma_pf_wf_bytes(v);
     let vu = mid.packet.unwrap(); axiom_vec_len(&vu);
+    let vf = fin.packet.unwrap(); axiom_vec_len(&vf);
     if si < 3 { lemma_edit_edns_other(u, v, si, k, rm, wl, m); } else { lemma_edit_edns_add(u, v, k, rm, wl, m); }
     // the cached question
     if fin.cached.is_some() {
@@ -318,4 +319,30 @@ pub proof fn lemma_edit_wf(fin: ParsedPacket, mid: ParsedPacket, si: int, k: int
         assert(opt_data(v, o2) == opt_data(u, o));
         assert(opts(v, o2 + 10, o2 + 10 + be16(v, o2 + 8)) == opts(u, o + 10, o + 10 + be16(u, o + 8)));
     } else { assert(ov.is_none()); }
+}
+
+// ---- a pointer-free record whose owner name is replaced by another clean name is a pointer-free record of the same type
+pub proof fn lemma_pf_rr_rename(u: Seq<u8>, off: int, v: Seq<u8>, nm: Seq<u8>)
+    requires pf_rr(u, off), !pf_is_opt(u, off), is_cname(nm), 0 <= off, ({ let ne = pcs_end(u, off).unwrap(); let rest = pf_end(u, off) - ne;
+        off + nm.len() + rest <= v.len()
+        && (forall|i: int| 0 <= i < nm.len() ==> v[off + i] == nm[i])
+        && (forall|j: int| 0 <= j < rest ==> #[trigger] v[off + nm.len() + j] == u[ne + j]) }),
+    ensures pf_rr(v, off), pcs_end(v, off) == Some(off + nm.len()), pf_end(v, off) == off + nm.len() + (pf_end(u, off) - pcs_end(u, off).unwrap()),
+        !pf_is_opt(v, off), be16(v, off + nm.len()) == be16(u, pcs_end(u, off).unwrap()),
+{
+    let ne = pcs_end(u, off).unwrap(); let d = ne + 10; let l = be16(u, ne + 8) as int; let t = be16(u, ne);
+    let ne2 = off + nm.len(); let sh = ne2 - ne;
+    lemma_pf_rr_spec(u, off, SecT::Additional, false);
+    lemma_pcs_bounds(u, off, 0);
+    assert forall|i: int| 0 <= i < nm.len() implies nm[i] == v[i - 0 + off] by { }
+    lemma_pcs_shift(nm, 0, v, off, 0);
+    assert(forall|k: int| ne <= k < pf_end(u, off) ==> u[k] == v[k + sh]) by {
+        assert forall|k: int| ne <= k < pf_end(u, off) implies u[k] == v[k + sh] by { assert(v[off + nm.len() + (k - ne)] == u[ne + (k - ne)]); }
+    }
+    assert(be16(v, ne + sh) == t) by { assert(u[ne] == v[ne + sh]); assert(u[ne + 1] == v[ne + 1 + sh]); }
+    assert(be16(v, ne + 8 + sh) == be16(u, ne + 8)) by { assert(u[ne + 8] == v[ne + 8 + sh]); assert(u[ne + 9] == v[ne + 9 + sh]); }
+    if t == 2 || t == 5 || t == 12 { lemma_pcs_shift(u, d, v, d + sh, 0); }
+    else if t == 15 { lemma_pcs_shift(u, d + 2, v, d + 2 + sh, 0); }
+    else if t == 6 { let n1 = pcs_end(u, d).unwrap(); lemma_pcs_bounds(u, d, 0); lemma_pcs_bounds(u, n1, 0); lemma_pcs_shift(u, d, v, d + sh, 0); lemma_pcs_shift(u, n1, v, n1 + sh, 0); }
+    else if t == 39 { lemma_plain_shift(u, d, v, d + sh, 0); }
 }
